@@ -7,7 +7,8 @@ The regular expression is folded into a glob matcher for the pattern subset
     literal characters, `*` (-> `.*`), `?` (-> `.`), `[…]` / `[!…]` / `[^…]` with single characters and ranges `x-y`,
     and `+` directly after a literal, `?` or class (the code turns it into the regex QUANTIFIER `+`, finding D20c — kept
     open: two tests of the repository rely on it);
-the empty list is the default partition "" (fixes/D20a.patch; `partitionMatchOld` is the test before it);
+the empty list is the default partition "" (D20a; `partitionMatchOld` is the test before it); an expression is tried on the
+NAMES of the other side only, never on its expressions (fixes/D20b.patch; `partitionMatchOldB` is the test before it);
 every other pattern (backslash, unclosed or empty class, class with other regex syntax, `+` elsewhere) is outside the model:
 `parsePat` returns `none` and the driver answers `bad-op`.
 `.` of the regex crate does not match '\n'; this is modelled.
@@ -103,10 +104,20 @@ def globMatch (p n : Name) : Bool :=
 
 def supported (p : Name) : Bool := (parsePat p).isSome
 
-def nameMatches (p : Name) (ns : List Name) : Bool := ns.any (fun n => globMatch p n)
+/-- is_partition_expression (fixes/D20b.patch): the name contains `*`, `?` or `[` (a backslash is outside the model) -/
+def isPattern (n : Name) : Bool := n.any (fun c => c == '*' || c == '?' || c == '[')
 
-/-- is any name of `ps`, read as a pattern, matching any name of `ns`? (`filter_map(Regex::new).any(|re| ns.any(is_match))`) -/
+/-- `ns.iter().any(|n| !is_partition_expression(n) && regex.is_match(n))`: an expression is tried on the NAMES of the other
+    side only (repaired code, fixes/D20b.patch) -/
+def nameMatches (p : Name) (ns : List Name) : Bool := ns.any (fun n => !isPattern n && globMatch p n)
+
+/-- is any entry of `ps`, compiled to a regular expression, matching any NAME of `ns`?
+    (`filter_map(Regex::new).any(|re| ns.any(…))`) -/
 def anyPatternMatch (ps ns : List Name) : Bool := ps.any (fun p => nameMatches p ns)
+
+/-- before fixes/D20b.patch: the expression was tried on every entry of the other side, expressions included -/
+def nameMatchesOld (p : Name) (ns : List Name) : Bool := ns.any (fun n => globMatch p n)
+def anyPatternMatchOld (ps ns : List Name) : Bool := ps.any (fun p => nameMatchesOld p ns)
 
 def anyCommonName (a b : List Name) : Bool := a.any (fun n => b.contains n)
 
@@ -116,9 +127,14 @@ def matchesDefault (names : List Name) : Bool := names.any (fun n => n.isEmpty |
 /-- is_default_partition_matched: one side has no names (= the default partition "") and the other side matches "" -/
 def defaultMatch (a b : List Name) : Bool := (a.isEmpty && matchesDefault b) || (b.isEmpty && matchesDefault a)
 
-/-- the inline test before fixes/D20a.patch -/
+/-- the inline test before fixes/D20a.patch (and D20b) -/
 def partitionMatchOld (received loc : List Name) : Bool :=
-  received == loc || anyCommonName received loc || anyPatternMatch received loc || anyPatternMatch loc received
+  received == loc || anyCommonName received loc || anyPatternMatchOld received loc || anyPatternMatchOld loc received
+
+/-- the inline test before fixes/D20b.patch (with D20a) -/
+def partitionMatchOldB (received loc : List Name) : Bool :=
+  received == loc || anyCommonName received loc || anyPatternMatchOld received loc || anyPatternMatchOld loc received
+    || defaultMatch received loc
 
 /-- the inline test: `received` = the partition of the discovered endpoint, `loc` = the partition of the local
     publisher / subscriber -/
